@@ -155,7 +155,16 @@ class SerializableType(type):
         SerializableType.registry[cls.type_id] = cls
         SerializableType.names[cls.__name__] = cls
         # TODO: use the __annotations__ to determine fields without default values
-        cls._fields = tuple(name for name in cls.__dict__ if ispublic(cls, name))
+        own_fields = tuple(name for name in cls.__dict__ if ispublic(cls, name))
+        # a class that derives from another Serializable class has the
+        # fields of that class as well (in front of its own, unless it
+        # declares them again), together with their annotations
+        inherited = tuple(name for name in getattr(parent_type, '_fields', ()) if name not in own_fields)
+        cls._fields = inherited + own_fields
+        if inherited:
+            annotations = dict(getattr(parent_type, '__annotations__', {}))
+            annotations.update(cls.__dict__.get('__annotations__', {}))
+            cls.__annotations__ = annotations
         for field in cls._fields:
             if field not in cls.__annotations__:
                 mplogger.info("missing annotation for %s.%s\n" % (cls.__name__, field))
